@@ -140,16 +140,16 @@ def random_frame(draw, cat_vars=("f", "g", "h"), num_vars=("x", "z"), int_vars=(
                  max_levels=4, with_index=True, extra_unused=True):
     """Arbitrary frame: unequal level counts, every declared level of a variable occurs at least once,
     str / Categorical / ordered Categorical columns, optional exotic index, optional unused columns."""
-    n = draw(st.integers(min_rows, max_rows))
+    n = draw(st.integers(max(min_rows, max_levels + 1), max_rows))
     seed = draw(st.integers(0, 50))
+    spots = sorted(range(n), key=lambda i: ((i + 1) * (seed + 3) * PHI) % 1.0)  # distinct row positions
     cols = []
     for name in cat_vars:
         nl = draw(st.integers(2, max_levels))
         lv = level_names(name, nl)
         codes = draw(st.lists(st.integers(0, nl - 1), min_size=n, max_size=n))
-        for i in range(min(nl, n)):  # make every level occur (unequal counts stay)
-            codes[(i * 7 + seed) % n] = i
-        # second pass: the overwrite above may have removed a level on tiny frames
+        for i in range(nl):  # make every level occur (unequal counts stay)
+            codes[spots[i]] = i
         present = set(codes)
         vals = [lv[c] for c in codes]
         lv_present = [l for i, l in enumerate(lv) if i in present]
@@ -163,8 +163,8 @@ def random_frame(draw, cat_vars=("f", "g", "h"), num_vars=("x", "z"), int_vars=(
     for name in int_vars:
         nl = draw(st.integers(2, max_levels))
         codes = draw(st.lists(st.integers(1, nl), min_size=n, max_size=n))
-        for i in range(min(nl, n)):
-            codes[(i * 5 + seed + 1) % n] = i + 1
+        for i in range(nl):
+            codes[spots[-1 - i]] = i + 1
         cols.append({"name": name, "kind": "int", "values": codes})
     for j, name in enumerate(num_vars):
         style = draw(st.sampled_from(["general", "general", "ties", "offset", "smallint"]))
